@@ -512,6 +512,10 @@ class DigestAuthMiddleware:
             if not needs_auth:
                 break
             if retry_count == 0:
+                if request.body.consumed:
+                    # The body cannot be replayed: the caller gets the 401,
+                    # not an authenticated request with an empty body.
+                    break
                 # Free the connection of the challenge response, or the retry
                 # needs a second one while this one is still acquired.
                 response.release()
